@@ -28,8 +28,10 @@ pub use common::cli::Cfg;
 
 fn main() {
     let cfg = common::cli::parse("hv");
-    common::sys::raise_nofile();
-    unsafe { libc::signal(libc::SIGPIPE, libc::SIG_IGN) };
+    if !cfg!(miri) {
+        common::sys::raise_nofile();
+        unsafe { libc::signal(libc::SIGPIPE, libc::SIG_IGN) };
+    }
     report::init(&cfg.check.to_uppercase(), cfg.shard, cfg.seed);
     util::install_panic_monitor();
     match cfg.check.as_str() {
